@@ -15,6 +15,29 @@ class Undecided(Exception):
     """Tool limit / build error / lost anchor: never a violation. Driver exits 2."""
 
 
+class BuildFailed(Undecided):
+    """The overlay no longer compiles against the (edited) source. `files` = overlay files named by the
+    compiler errors; they are lost anchors for THEIR obligations only - the build is retried without them."""
+
+    def __init__(self, msg, files):
+        Undecided.__init__(self, msg)
+        self.files = files
+
+
+def overlay_files_in_errors(out):
+    """overlay file names (kani/<f>.rs, exec/<m>.rs) that rustc errors point into"""
+    files = set()
+    lines = out.splitlines()
+    for i, l in enumerate(lines):
+        if re.match(r"^error(\[E\d+\])?:", l):
+            for k in range(i + 1, min(i + 8, len(lines))):
+                m = re.search(r"-->\s*(\S*/overlay/(kani|exec)/(\w+)\.rs):\d+", lines[k])
+                if m:
+                    files.add("%s/%s" % (m.group(2), m.group(3)))
+                    break
+    return files
+
+
 def log(*a):
     print(*a, file=sys.stderr, flush=True)
 
@@ -59,11 +82,15 @@ class Scratch:
         self.repo = os.path.join(self.root, "repo")
         self.inserted = 0
         self.appended = 0
+        self.excluded = set()     # "kani/<file>" / "exec/<module>" overlay parts dropped after a build failure
         atexit.register(self.cleanup)
         if os.path.exists(self.root):
             shutil.rmtree(self.root, ignore_errors=True)
         os.makedirs(self.root)
-        rc, out, _ = run(["rsync", "-a", "--exclude", "/target", "--exclude", "/.git",
+        self._copy()
+
+    def _copy(self):
+        rc, out, _ = run(["rsync", "-a", "--delete", "--exclude", "/target", "--exclude", "/.git",
                           REPO.rstrip("/") + "/", self.repo + "/"])
         if rc != 0:
             raise Undecided("rsync of %s failed: %s" % (REPO, out))
@@ -71,6 +98,15 @@ class Scratch:
         with open(os.path.join(self.repo, ".cargo", "config.toml"), "w") as f:
             f.write("[net]\noffline = true\n")
         self._overlay()
+
+    def exclude(self, files):
+        """Drop overlay parts that no longer compile and re-create the scratch sources."""
+        new = set(files) - self.excluded
+        if not new:
+            return False
+        self.excluded |= new
+        self._copy()
+        return True
 
     def cleanup(self):
         shutil.rmtree(self.root, ignore_errors=True)
@@ -95,7 +131,7 @@ class Scratch:
                 text += "\n"
             # 2. overlay module lines
             ov = os.path.join(VERIF, "overlay", "kani", f + ".rs")
-            if f != "lib" and os.path.exists(ov):
+            if f != "lib" and os.path.exists(ov) and ("kani/" + f) not in self.excluded:
                 text += '#[cfg(any(kani, asefile_verif))]\n#[path = "%s"]\npub(crate) mod verif_overlay;\n' % ov
                 self.appended += 1
             if f == "lib":
@@ -103,13 +139,28 @@ class Scratch:
                 text = '#![cfg_attr(kani, recursion_limit = "1024")]\n' + text
                 text += ('#[cfg(any(kani, asefile_verif))]\n#[path = "%s"]\npub(crate) mod verif_spec;\n'
                          % os.path.join(VERIF, "overlay", "spec", "mod.rs"))
-                text += ('#[cfg(all(asefile_verif, test))]\n#[path = "%s"]\nmod verif_exec;\n'
-                         % os.path.join(VERIF, "overlay", "exec", "mod.rs"))
+                text += ('#[cfg(all(asefile_verif, test))]\n#[path = "%s"]\nmod verif_exec;\n' % self._exec_mod())
                 text += ('#[cfg(asefile_verif_sendsync)]\n#[path = "%s"]\nmod verif_send_sync;\n'
                          % os.path.join(VERIF, "overlay", "exec", "send_sync.rs"))
                 self.appended += 3
             self._assert_add_only(orig, text, p)
             open(p, "w").write(text)
+
+    def _exec_mod(self):
+        """Per-scratch copy of overlay/exec/mod.rs listing the modules by absolute path, minus excluded ones."""
+        src = open(os.path.join(VERIF, "overlay", "exec", "mod.rs")).read()
+        out = []
+        for line in src.splitlines():
+            m = re.match(r"^(pub )?mod (\w+);(.*)$", line)
+            if m:
+                if ("exec/" + m.group(2)) in self.excluded:
+                    out.append("// excluded after a build failure: %s" % m.group(2))
+                    continue
+                out.append('#[path = "%s"]' % os.path.join(VERIF, "overlay", "exec", m.group(2) + ".rs"))
+            out.append(line)
+        p = os.path.join(self.root, "verif_exec_mod.rs")
+        open(p, "w").write("\n".join(out) + "\n")
+        return p
 
     def _insert_attrs(self, text, f, fn_name, attrs):
         # anchor: a line that declares `fn <name>(` or `fn <name><` at any visibility
